@@ -172,7 +172,8 @@ def run_c07(ctx):
 # ---- C08 -------------------------------------------------------------------------------------
 def run_c08(ctx):
     n = _tier(ctx, 32, 400)
-    jobs = pc.corpus_jobs(['S3_*.scn', 'S5_*.scn']) + pc.generated_jobs('C08', ctx['seed'], n, ['appcmd', 'mixed', 'appcmd', 'skinned'])
+    cj, _ = _jobs_from(scen.crash_cross, 'C08x', ctx['seed'], n)
+    jobs = pc.corpus_jobs(['S3_*.scn', 'S5_*.scn']) + cj + pc.generated_jobs('C08', ctx['seed'], n // 2, ['appcmd', 'mixed', 'skinned'])
     out = pc.run_scenarios('C08', ctx, jobs, [oracles.panics], nontrivial=pc.received_kinds)
     return pc.make_result('C08', ctx, out, 'frames of histories mixing replication traffic with application despawns (between frames and through application systems placed by the scheduler), peers with different registrations, late joins; every update() is run under catch_unwind; non-trivial = distinct (scenario, receiver, kind, key) received')
 
